@@ -5,7 +5,8 @@
 # runs TestCNN in one (quick) or several (thorough) child processes, merges their partial results into
 # evidence/<PROP>.json and prints VIOLATION / KNOWN-FINDING / BROKEN-CHECK lines.
 set -u
-cd /verif
+VROOT=$(cd "$(dirname "$(readlink -f "$0")")" && pwd)
+cd "$VROOT"
 . ./env.sh
 PROP=${1:?property id}; TIER=${2:-quick}
 SEED=${VERIF_SEED:-1}
@@ -31,17 +32,18 @@ if [ "$TIER" = replay ]; then
   TIER=$RT; REPLAY_SHARD="$SH/$NSH"
 fi
 
-moddir=/verif/harness; modflag=""
-if [ "$pkg" = wasm ]; then moddir=/verif/harness-wasm; fi
+moddir=$VROOT/harness; modflag=""
+if [ "$pkg" = wasm ]; then moddir=$VROOT/harness-wasm; fi
 # VERIF_REPO=<dir>: build against a scratch copy of the repository (mutation trials); the go.mod replace is rewritten in a temp modfile
+mkdir -p $VROOT/out
 if [ -n "${VERIF_REPO:-}" ]; then
-  mf=$(mktemp -d /verif/out/modXXXXXX)
+  mf=$(mktemp -d $VROOT/out/modXXXXXX)
   sed "s#=> /repo#=> $VERIF_REPO#g" $moddir/go.mod > $mf/go.mod; cp $moddir/go.sum $mf/go.sum
   modflag="-modfile=$mf/go.mod"
 fi
 
-OUT=/verif/out/$PROP.$TIER.$$; rm -rf "$OUT"; mkdir -p "$OUT" /verif/bin /verif/evidence/replays
-BIN=/verif/bin/$pkg.$$.test
+OUT=$VROOT/out/$PROP.$TIER.$$; rm -rf "$OUT"; mkdir -p "$OUT" $VROOT/bin $VROOT/evidence/replays
+BIN=$VROOT/bin/$pkg.$$.test
 trap 'rm -f "$BIN"; [ -n "${mf:-}" ] && rm -rf "$mf"' EXIT
 t0=$(date +%s)
 ( cd $moddir && go test -c $modflag -tags verif -o "$BIN" ./$pkg ) > "$OUT/build.log" 2>&1
@@ -62,7 +64,7 @@ for ((i=0;i<NSH;i++)); do
 done
 for p in "${pids[@]}"; do wait "$p"; done
 t2=$(date +%s)
-python3 /verif/merge.py "$PROP" "$TIER" "$SEED" "$OUT" "$((t1-t0))" "$((t2-t1))" "${ONLY:+replay}"
+python3 $VROOT/merge.py "$PROP" "$TIER" "$SEED" "$OUT" "$((t1-t0))" "$((t2-t1))" "${ONLY:+replay}"
 rc=$?
 { [ $rc -eq 0 ] || [ -n "${VERIF_EVIDENCE_DIR:-}" ]; } && [ -z "${VERIF_KEEP:-}" ] && rm -rf "$OUT"
 exit $rc
